@@ -3,6 +3,7 @@ package sim
 import (
 	"fmt"
 	"math/rand/v2"
+	"time"
 
 	corev1 "k8s.io/api/core/v1"
 	"k8s.io/apimachinery/pkg/types"
@@ -172,7 +173,6 @@ func histProfile(name string, decide []string, quick, thorough int, o histOpts, 
 
 func init() {
 	register(histProfile("C01", []string{"C01"}, 1500, 60000, histOpts{maxNodes: 6, pCanary: 0.4, fancy: []float64{0.3, 0.7}, faults: true}, "C01.create", "C01.dup", "C01.ineligible"))
-	register(histProfile("C05", []string{"C05"}, 1500, 60000, histOpts{maxNodes: 4, pCanary: 0.85, fancy: []float64{0}, faults: true}, "C05.switch"))
 	register(histProfile("C09", []string{"C09"}, 1500, 60000, histOpts{maxNodes: 8, pCanary: 0.2, fancy: []float64{0, 0.3}, faults: true}, "C09.creates", "C09.spacing", "C09.update-del"))
 	register(histProfile("C12", []string{"C12"}, 1200, 50000, histOpts{maxNodes: 4, pCanary: 0.4, fancy: []float64{0, 0.3}, faults: true, twoEDS: true}, "C12.foreign-listed", "C12.write"))
 	register(histProfile("C13", []string{"C13"}, 1500, 60000, histOpts{maxNodes: 4, pCanary: 0.5, fancy: []float64{0.3, 0.7}, faults: true}, "C13.create", "C13.delete", "C13.podtemplate"))
@@ -697,6 +697,7 @@ func genC04(r *rand.Rand, tier string, idx int) *World {
 	w := genHistory(r, tier, o)
 	w.Extra["c02prop"] = "C04"
 	w.Extra["c04end"] = pick(r, "hold", "hold", "promote")
+	w.Cfg.StrategyEdits = chance(r, 0.5)
 	w.Cfg.EndCanary = "validate"
 	return w
 }
@@ -789,4 +790,74 @@ func init() {
 	register(&Profile{Name: "C04", Decide: []string{"C04"}, Quick: 1500, Thorough: 80000, Gen: genC04, Body: bodyC04,
 		NonVacuous: []string{"C04.canary-sync", "C04.active-with-canary", "C04.canary-status", "C04.held", "C04.promoted"}, Chunk: 50,
 		Rule: "Canary histories (replicas as number or percent, a second template change while a canary runs, node churn, pause/unpause/fail, all three replica-set roles and the ExtendedDaemonSet reconciling against one store in any order, stalls across role changes); per-sync confinement monitors; then either the canary is held while a node joins and the rest of the fleet must be served by the active template with the canary pods labelled, or it is promoted and the label must be gone at quiescence. " + histRule})
+}
+
+// ---------------------------------------------------------------------------------------
+// C05: a canary is started, then a focused chaos of pause/unpause/validate/fail actions,
+// restarts, replica-set syncs and ExtendedDaemonSet reconciles around the boundary instants,
+// then the clock passes the end of the duration.
+
+func genC05(r *rand.Rand, tier string, idx int) *World {
+	o := histOpts{maxNodes: 4, pCanary: 1, fancy: []float64{0}, faults: idx%2 == 1}
+	w := genHistory(r, tier, o)
+	c := w.EDS[0].Strategy.Canary
+	mode := c.ValidationMode
+	if mode == "" {
+		mode = string(w.DefaultValidationMode)
+	}
+	if mode != "manual" {
+		c.Duration = pick(r, "1m", "3m", "10m")
+		c.NoRestartsDuration = pick(r, "", "0s", "1m", "5m")
+	}
+	c.NodeSelector = nil
+	w.Cfg.TemplateEdits = chance(r, 0.2)
+	w.Cfg.NodeChurn = false
+	w.Cfg.AnnotationEdits = true
+	w.Cfg.CLI = true
+	w.Cfg.KubeletFaults = chance(r, 0.6)
+	w.Cfg.Stall = true
+	w.Cfg.ChaosSteps = pick(r, 15, 30, 60, 100)
+	w.Extra["c05"] = "1"
+	w.Extra["dropActive"] = pick(r, "0", "0", "0", "1")
+	return w
+}
+
+func bodyC05(s *Sim) {
+	s.Setup()
+	def := s.W.EDS[0]
+	key := types.NamespacedName{Namespace: def.NS, Name: def.Name}
+	s.bootstrap(def)
+	for i := 0; i < 2+len(s.W.Nodes); i++ {
+		s.Round(s.rngEnv)
+	}
+	s.userSetTemplate(def.NS, def.Name, "B")
+	s.RunTask(CtrlEDS, key)
+	s.RunTask(CtrlEDS, key)
+	s.Chaos()
+	if s.W.Extra["dropActive"] == "1" {
+		if e := s.Store.GetEDS(def.NS, def.Name); e != nil && e.Status.ActiveReplicaSet != "" {
+			s.Store.Remove(objKey{KERS, def.NS, e.Status.ActiveReplicaSet})
+		}
+	}
+	// pass the end of the duration with whatever pause/validation/failure state the chaos left
+	r := subRng(s.Seed, "c05end")
+	for i := 0; i < 3; i++ {
+		ds := s.advanceCandidates()
+		s.Advance(ds[r.IntN(len(ds))])
+		if r.IntN(2) == 0 {
+			for _, rs := range s.Store.ERSs() {
+				s.RunTask(CtrlERS, types.NamespacedName{Namespace: rs.Namespace, Name: rs.Name})
+			}
+		}
+		s.RunTask(CtrlEDS, key)
+	}
+	s.Advance(11 * time.Minute)
+	s.RunTask(CtrlEDS, key)
+	s.RunTask(CtrlEDS, key)
+}
+
+func init() {
+	register(&Profile{Name: "C05", Decide: []string{"C05"}, Quick: 2500, Thorough: 120000, Gen: genC05, Body: bodyC05,
+		NonVacuous: []string{"C05.switch"}, Chunk: 50,
+		Rule: "A canary is started through the real reconcilers (strategy auto or manual, duration 1-10 min, noRestartsDuration unset/0/positive); then a focused seeded phase of kubectl-eds canary pause/unpause/validate/fail, user edits of the canary-paused / canary-unpaused / canary-valid annotations, container restarts, replica-set syncs, ExtendedDaemonSet reconciles, stalls and clock jumps to boundary instants (creation+duration, last restart+noRestartsDuration, each at -1s, exactly, +1ns, +1s), optionally the recorded active replica set is deleted; finally the clock passes the end of the duration and the ExtendedDaemonSet is reconciled. Every change of status.activeReplicaSet is judged against the promotion rule. " + histRule})
 }
